@@ -132,7 +132,9 @@ static std::string run_case(const toks_t& t)
     int own_fn[NOWN] = { -1, -1, -1 };   // ... and which function it registered
     std::vector<owner_t> extra;
     for (size_t n = 1; n < t.size(); n++) {
-      toks_t o = split(t[n], ':');
+      // a leading '!' makes the operation's abort RECOVERABLE: it is reported and the history goes on
+      const bool recover = !t[n].empty() && t[n][0] == '!';
+      toks_t o = split(recover ? t[n].substr(1) : t[n], ':');
       const std::string& c = o[0];
       if (!out.empty()) out += ",";
       if (g_between_ops) g_between_ops();
@@ -355,6 +357,7 @@ static std::string run_case(const toks_t& t)
       } catch (const std::runtime_error& e) {
         if (std::strncmp(e.what(), "HARNESS", 7) == 0) throw;
         out += c + "=ABORT";
+        if (recover) continue;
         break;
       }
     }
